@@ -60,7 +60,9 @@ def concretise(terms, pkg) -> str:
     for t in terms:
         i, s = t["id"], py(t)
         out.append(f"def fp{i}(x: {s}): ...\n\n\ndef fr{i}() -> {s}: ...\n\n\n"
-                   f"class K{i}:\n    ca: {s}\n\n    def __init__(self, x: {s}):\n        self.ia: {s} = x\n\n")
+                   f"class K{i}:\n    ca: {s}\n\n    def __init__(self, x: {s}):\n        self.ia: {s} = x\n\n\n"
+                   # the same parameter seen through a private base class in two public subclasses (one type value, rendered twice)
+                   f"class _PB{i}:\n    def inh(self, x: {s}):\n        ...\n\n\nclass PSa{i}(_PB{i}):\n    pass\n\n\nclass PSb{i}(_PB{i}):\n    pass\n\n")
     return "\n".join(out)
 
 
@@ -96,6 +98,13 @@ def observe(t, stubs: Stubs) -> dict:
                 add(label, [type_term(m.type)])
     else:
         for label in ("ctorparam", "classattr", "instattr"):
+            add(label, [], True)
+    for cname, label in ((f"PSa{i}", "inherited-first"), (f"PSb{i}", "inherited-second")):
+        kk = stubs.top(cname)
+        m = member(kk[0][1], "inh", "fun") if len(kk) == 1 and kk[0][1].kind == "class" else None
+        if m is not None and m.params and len(m.params) == 1:
+            add(label, [type_term(m.params[0]["type"])])
+        else:
             add(label, [], True)
     return {"pos": pos}
 
